@@ -99,6 +99,49 @@ def to_dict_contract(chk, repo, rule):
                 key="to_dict:contract", sample={"normal form": show_paths(got)[:200]})
 
 
+def to_dict_eval(chk, repo, rule):
+    """utils.to_dict evaluated (the checker's interpreter) on model parse results: a Container with the `_io` entry construct adds,
+    nested Containers, lists of Containers, (value, attrs) pairs, scalars of every kind the adapters produce: dicts without `_io` at
+    every depth, lists stay lists, pairs stay tuples (in order), scalars come back unchanged"""
+    import datetime
+    from collections import OrderedDict
+    from ..repeval import from_shape, Undecided
+    from ..shapes import Const, DictS, Interp, ListLit, NonTermination, ShapeError, TupS, _Raise
+    um = repo.module("ceos_alos2.utils")
+    where = f"{um.relpath}:to_dict"
+    I = Interp(repo)
+    sc = I.module_scope(um)
+    dt = datetime.datetime(2016, 2, 29, 23, 59, 59, 999000)
+    io = Const("<stream>")
+    inner = lambda: DictS(OrderedDict([("_io", io), ("a", Const(1)), ("pair", TupS([Const(2.5), DictS(OrderedDict(units=Const("m")))]))]))
+    model = DictS(OrderedDict([("_io", io), ("n", Const(7)), ("x", Const(1.5)), ("s", Const("text")), ("b", Const(b"raw")), ("z", Const(complex(1, -2))), ("t", Const(dt)),
+                               ("sub", inner()), ("items", ListLit([inner(), inner()])), ("empty", ListLit([])), ("nested", DictS(OrderedDict([("_io", io), ("deep", inner())])))]))
+    want_inner = {"a": 1, "pair": (2.5, {"units": "m"})}
+    want = {"n": 7, "x": 1.5, "s": "text", "b": b"raw", "z": complex(1, -2), "t": dt, "sub": want_inner, "items": [want_inner, want_inner], "empty": [], "nested": {"deep": want_inner}}
+    try:
+        got = from_shape(I.call(I.lookup("to_dict", sc), [model], {}))
+    except _Raise as e:
+        chk.fail(rule, where, f"to_dict raises on a model parse result ({e.what[:80]})", key="to_dict:eval")
+        return
+    except (ShapeError, NonTermination, RecursionError, Undecided) as e:
+        raise AnalysisError(f"{where}: cannot be evaluated on a model parse result: {str(e)[:140]}")
+
+    def typed(v):
+        if isinstance(v, dict):
+            return ("dict", [(k, typed(x)) for k, x in v.items()])
+        if isinstance(v, (list, tuple)):
+            return (type(v).__name__, [typed(x) for x in v])
+        return (type(v).__name__, v)
+    chk.require(typed(got) == typed(want), rule, where, "to_dict on a model parse result: dicts without `_io` at every depth, lists stay lists, (value, attrs) pairs stay tuples, scalars unchanged",
+                f"to_dict turns a model parse result into {str(got)[:160]}, expected {str(want)[:120]}: parsed values no longer reach the pipelines in the shape they expect", key="to_dict:eval")
+
+
+def to_dict_rules(chk, repo, rule):
+    """the evaluation decides; the normal-form comparison adds the per-type case analysis where to_dict is written as a dispatch"""
+    chk.attempt(to_dict_eval, chk, repo, rule)
+    chk.attempt(to_dict_contract, chk, repo, rule, covered_by="to_dict_eval")
+
+
 def parse_and_transform(chk, repo, rule, modname, struct_name, transform_name, opener):
     """<opener>(mapper, path): data = mapper[path]; metadata = to_dict(<struct>.parse(data)); return <transform>(metadata)"""
     mod = repo.module(modname)
